@@ -15,6 +15,7 @@ import ast
 
 from .core import AnalysisError, loc, norm_src, walk_no_nested, dotted, str_const
 from .symx import Interp, Obj, Path, PList, PDict, Unsupported, explore, Abort
+from .trace import tags
 from .rat import Rat
 
 ANIM = "src/food_system/animal_populations.py"
@@ -203,73 +204,110 @@ def _short(k):
     return k.replace("<", "").replace(">", "").replace(" ", "")[:40]
 
 
+def _ev(events, kind, name=None):
+    return [e for e in events if e.kind == kind and (name is None or e.name == name)]
+
+
+def _is(value, tag):
+    if isinstance(value, Obj):
+        return value.name == tag
+    return isinstance(value, Path) and value.idx is None and ".".join(str(p) for p in value.parts) == tag
+
+
 def starve(index, rep):
+    from . import herd
+    from .c06 import Over
     rule = "C07.STARVE"
-    fn = index.func(ANIM, "AnimalPopulation.calculate_starving_animals_after_feed")
-    loops = [s for s in fn.body if isinstance(s, ast.For)]
-    ok = len(loops) == 1 and norm_src(loops[0].iter) == fn.args.args[0].arg
-    if ok:
-        body = [norm_src(s) for s in loops[0].body]
-        v = loops[0].target.id
-        ok = body == [f"{v}.population_starving_pre_slaughter.append({v}.current_population - {v}.population_fed)"]
-    rep.check(ok, rule, "starving = herd - fed for every animal", "the starving count is not appended as herd - fed for each animal of the list",
-              loc=loc(ANIM, fn))
-    main = index.func(ANIM, "main")
-    mloop = [s for s in main.body if isinstance(s, ast.For) and norm_src(s.iter) == "range(0, months_to_run)"]
-    if len(mloop) != 1:
-        raise AnalysisError("main: month loop not found")
-    seq = [dotted(c.func) for s in mloop[0].body for c in ast.walk(s) if isinstance(c, ast.Call) and (dotted(c.func) or "").startswith("AnimalPopulation.")]
-    ok = "AnimalPopulation.feed_animals" in seq and "AnimalPopulation.calculate_starving_animals_after_feed" in seq and \
-        seq.index("AnimalPopulation.feed_animals") < seq.index("AnimalPopulation.calculate_starving_animals_after_feed")
-    rep.check(ok, rule, "month-loop: starving counted right after feeding", "starving animals are not computed after feeding in every month",
-              loc=loc(ANIM, mloop[0]))
-    c = [x for x in ast.walk(mloop[0]) if isinstance(x, ast.Call) and dotted(x.func) == "AnimalPopulation.calculate_starving_animals_after_feed"]
-    rep.check(len(c) == 1 and norm_src(c[0].args[0]) == "all_animals", rule, "covers-all-animals", "not all animals are covered", loc=loc(ANIM, mloop[0]))
+    fn, leaves = herd.function_trace(index, "AnimalPopulation.calculate_starving_animals_after_feed")
+    ov = Over(rep, rule, loc(ANIM, fn))
+    for dec, ev, env, it in leaves:
+        app = _ev(ev, "append", "population_starving_pre_slaughter")
+        pb = _ev(ev, "pass-begin")
+        ok = len(app) == 1 and len(pb) == 1 and pb[0].name == fn.args.args[0].arg and \
+            it.to_rat(app[0].args[0]) == it.to_rat(Path(("elem", "current_population"))) - it.to_rat(Path(("elem", "population_fed")))
+        ov.leaf("starving = herd - fed for every animal", ok, "the starving count is not appended as herd - fed for each animal of the list", dec)
+    ov.done()
+    exits = [n for n in ast.walk(fn) if isinstance(n, (ast.Break, ast.Continue, ast.Return))]
+    rep.check(not exits, rule, "no animal skipped when counting starving", "the starving pass can skip animals", loc=loc(ANIM, fn))
+    main, ml, mleaves = herd.month_trace(index)
+    ov = Over(rep, rule, loc(ANIM, ml))
+    for dec, ev, env, it in mleaves:
+        fa = _ev(ev, "call", "feed_animals")
+        sa = _ev(ev, "call", "calculate_starving_animals_after_feed")
+        ok = len(fa) == 1 and len(sa) == 1 and ev.index(fa[0]) < ev.index(sa[0]) and not [
+            e for e in ev[ev.index(fa[0]) + 1: ev.index(sa[0])] if e.kind in ("call", "append", "elem-call", "pass-begin")]
+        ov.leaf("month-loop: starving counted right after feeding", ok, "starving animals are not computed right after feeding in every month", dec)
+        okc = ok and canon_eq(fa[0].args[0], sa[0].args[0])
+        ov.leaf("covers-all-animals", okc, "starving is not counted over the same list of animals that was fed", dec)
+    ov.done()
     rep.require_min(rule, 3)
 
 
+def canon_eq(a, b):
+    from .symx import canon
+    return canon(a) == canon(b)
+
+
 def prio(index, rep):
+    from . import herd
+    from .c06 import Over
     rule = "C07.PRIO"
-    fn = index.func(ANIM, "AnimalPopulation.feed_animals")
-    params = [a.arg for a in fn.args.args]
-    if params != ["animal_list", "ruminants", "available_feed", "available_grass"]:
-        raise AnalysisError(f"feed_animals signature changed: {params}")
-    loops = [s for s in fn.body if isinstance(s, ast.For)]
-    ok = len(loops) == 2 and all(norm_src(l.iter) == "animal_list" for l in loops)
-    rep.check(ok, rule, "two passes over the list in its order", "feed_animals does not make one reset pass and one feeding pass over animal_list, in order",
-              loc=loc(ANIM, fn))
-    if ok:
-        v0 = loops[0].target.id
-        rep.check([norm_src(s) for s in loops[0].body] == [f"{v0}.reset_NE_balance()"], rule, "balances reset before feeding",
-                  "the energy balance of every animal is not reset before feeding starts", loc=loc(ANIM, loops[0]))
-        v = loops[1].target.id
-        calls = [c for c in ast.walk(loops[1]) if isinstance(c, ast.Call) and isinstance(c.func, ast.Attribute) and c.func.attr == "feed_the_species"]
-        okc = len(calls) == 1 and norm_src(calls[0].func.value) == v and [norm_src(a) for a in calls[0].args[:2]] == ["available_grass", "available_feed"]
-        st = calls[0]._parent if calls else None
-        okc = okc and isinstance(st, ast.Assign) and isinstance(st.targets[0], ast.Tuple) and \
-            [norm_src(e) for e in st.targets[0].elts] == ["available_grass", "available_feed"]
-        rep.check(okc, rule, "resources threaded (grass, feed) in, (grass, feed) out",
-                  "what one species leaves is not what the next species is offered (grass/feed crossed or not carried over)", loc=loc(ANIM, loops[1]))
-        rum = [s for s in loops[1].body if isinstance(s, ast.Assign) and norm_src(s.value) == f"{v} in ruminants"]
-        okr = len(rum) == 1 and calls and len(calls[0].args) == 3 and norm_src(calls[0].args[2]) == norm_src(rum[0].targets[0])
-        rep.check(okr, rule, "ruminant flag = membership in the ruminant list", "the ruminant flag passed to feeding is not `animal in ruminants`", loc=loc(ANIM, loops[1]))
-        no_exit = not [n for n in ast.walk(loops[1]) if isinstance(n, (ast.Break, ast.Continue, ast.Return))]
-        rep.check(no_exit, rule, "no species skipped", "the feeding pass can skip species", loc=loc(ANIM, loops[1]))
-    rets = [norm_src(r.value) for r in fn.body if isinstance(r, ast.Return)]
-    rep.check(rets == ["(available_feed, available_grass)"], rule, "returns (feed, grass) left", f"returns {rets}", loc=loc(ANIM, fn))
+    fn, leaves = herd.function_trace(index, "AnimalPopulation.feed_animals", iterations=2)
+    if len(fn.args.args) != 4:
+        raise AnalysisError(f"feed_animals signature changed: {[a.arg for a in fn.args.args]}")
+    # parameters by position: P0 list, P1 ruminants, P2 feed, P3 grass (the caller side is checked below against the same positions)
+    ov = Over(rep, rule, loc(ANIM, fn))
+    for dec, ev, env, it in leaves:
+        passes = _ev(ev, "pass-begin")
+        resets = _ev(ev, "elem-call", "reset_NE_balance")
+        feeds = _ev(ev, "elem-call", "feed_the_species")
+        ok = len(passes) == 2 and all(p.name == fn.args.args[0].arg for p in passes) and len(resets) == 2 and len(feeds) == 2 and \
+            max(ev.index(r) for r in resets) < min(ev.index(f) for f in feeds)
+        ov.leaf("two passes over the list in its order; balances reset before feeding", ok,
+                "feed_animals does not make one reset pass and then one feeding pass over the list it is given, in order", dec)
+        if len(feeds) == 2:
+            f1, f2 = feeds
+            okt = len(f1.args) == 3 and _is(f1.args[0], "P3") and _is(f1.args[1], "P2") and \
+                _is(f2.args[0], "elemcall:feed_the_species#0") and _is(f2.args[1], "elemcall:feed_the_species#1")
+            ov.leaf("resources threaded (grass, feed) in, (grass, feed) out", okt,
+                    "what one species leaves is not what the next species is offered (grass/feed crossed or not carried over)", dec)
+            flags = [herd.dec_true(dec, "elem in P1"), herd.dec_true(dec, "elem2 in P1")]
+            okr = [f1.args[2], f2.args[2]] == flags
+            ov.leaf("ruminant flag = membership in the ruminant list", okr, "the ruminant flag passed to feeding is not `animal in ruminants`", dec)
+            ret = _ev(ev, "return")
+            okret = len(ret) == 1 and isinstance(ret[0].args[0], tuple) and len(ret[0].args[0]) == 2 and \
+                _is(ret[0].args[0][0], "elemcall:elem2.feed_the_species#1") and _is(ret[0].args[0][1], "elemcall:elem2.feed_the_species#0")
+            ov.leaf("returns (feed, grass) left by the last species", okret, "feed_animals does not return (feed left, grass left)", dec)
+    ov.done()
+    no_exit = not [n for n in ast.walk(fn) if isinstance(n, (ast.Break, ast.Continue))] and len([n for n in ast.walk(fn) if isinstance(n, ast.Return)]) == 1
+    rep.check(no_exit, rule, "no species skipped", "the feeding pass can skip species", loc=loc(ANIM, fn))
     # caller: unpack order, per-month resources, usage = offered - left
-    main = index.func(ANIM, "main")
-    mloop = [s for s in main.body if isinstance(s, ast.For) and norm_src(s.iter) == "range(0, months_to_run)"][0]
-    call = [s for s in mloop.body if isinstance(s, ast.Assign) and isinstance(s.value, ast.Call) and dotted(s.value.func) == "AnimalPopulation.feed_animals"]
-    ok = len(call) == 1 and [norm_src(e) for e in call[0].targets[0].elts] == ["feed_available_this_month", "grass_available_this_month"] and \
-        [norm_src(a) for a in call[0].value.args] == ["all_animals", "ruminants", "feed_available_this_month", "grass_available_this_month"]
-    rep.check(ok, rule, "main: (feed, grass) slots", "main does not pass/unpack (feed, grass) in the callee's order", loc=loc(ANIM, mloop))
-    asg = {norm_src(s.targets[0]): norm_src(s.value) for s in mloop.body if isinstance(s, ast.Assign)}
-    ok = asg.get("feed_available_this_month") == "available_feed[month]" and asg.get("grass_available_this_month") == "available_grass[month]" and \
-        asg.get("feed_used.kcals[month]") == "available_feed.kcals[month] - feed_available_this_month.kcals" and \
-        asg.get("grass_used.kcals[month]") == "available_grass.kcals[month] - grass_available_this_month.kcals"
-    rep.check(ok, rule, "main: month m offered / used = offered - left", "a month's feed/grass offered or its recorded use is not that month's "
-              "supply / supply minus what was left", loc=loc(ANIM, mloop))
+    main, ml, mleaves = herd.month_trace(index)
+    P = [a.arg for a in main.args.args]
+    ov = Over(rep, rule, loc(ANIM, ml))
+    for dec, ev, env, it in mleaves:
+        fa = _ev(ev, "call", "feed_animals")
+        ok = len(fa) == 1 and len(fa[0].args) == 4
+        feed_p = grass_p = None
+        if ok:
+            a2, a3 = fa[0].args[2], fa[0].args[3]
+            ok = isinstance(a2, Path) and isinstance(a3, Path) and a2.idx is not None and a3.idx is not None and a2.parts[-1] == "[]" and a3.parts[-1] == "[]" \
+                and str(a2.idx) == str(a3.idx) == str(it.index_of(Rat.atom("M")))
+            if ok:
+                feed_p, grass_p = a2.parts[0], a3.parts[0]
+                ok = feed_p in P and grass_p in P and feed_p != grass_p and "feed" in feed_p and "grass" in grass_p
+        ov.leaf("main: (feed, grass) slots, this month's supply", ok, "main does not offer this month's feed and grass supply in the callee's (feed, grass) order", dec)
+        if ok:
+            st = {e.name: e for e in _ev(ev, "store")}
+            used = [e for e in _ev(ev, "store") if isinstance(e.args[1], (Rat, Path)) and any("ret:feed_animals" in t for t in tags(e.args[1]))]
+            want_f = it.to_rat(Path((feed_p, "kcals", "[]"), it.index_of(Rat.atom("M")))) - it.to_rat(Path(("ret:feed_animals#0", "kcals")))
+            want_g = it.to_rat(Path((grass_p, "kcals", "[]"), it.index_of(Rat.atom("M")))) - it.to_rat(Path(("ret:feed_animals#1", "kcals")))
+            vals = [it.to_rat(e.args[1]) for e in used]
+            keys_ok = all(isinstance(e.args[0], Rat) and e.args[0] == Rat.atom("M") for e in used)
+            oku = len(used) == 2 and keys_ok and want_f in vals and want_g in vals and ("feed" in used[vals.index(want_f)].name) and ("grass" in used[vals.index(want_g)].name)
+            ov.leaf("main: month m used = offered - left (feed from slot 0, grass from slot 1)", oku,
+                    "a month's recorded feed/grass use is not that month's supply minus what feed_animals returned in the same slot", dec)
+    ov.done()
     # the list is the priority order, descending, and is not reordered afterwards
     go = index.func(ANIM, "AnimalModelBuilder.get_optimal_next_animal_to_feed")
     srt = [c for c in ast.walk(go) if isinstance(c, ast.Call) and dotted(c.func) == "sorted"]
@@ -277,18 +315,24 @@ def prio(index, rep):
         any(k.arg == "key" and "net_kcals_gained_per_hour_slaughter_this_month" in norm_src(k.value) for k in srt[0].keywords)
     rep.check(ok, rule, "priority: sorted by net kcals gained per slaughter hour, descending", "the priority order is not the descending sort by "
               "net_kcals_gained_per_hour_slaughter_this_month", loc=loc(ANIM, go))
-    aa = [s for s in main.body if isinstance(s, ast.Assign) and norm_src(s.targets[0]) == "all_animals"]
-    ok = len(aa) == 1 and norm_src(aa[0].value) == "[animal for animal in animal_dict.values()]"
-    rep.check(ok, rule, "all_animals = dict order", "all_animals is not built from the sorted dictionary's order", loc=loc(ANIM, main))
+    # the list handed to feed_animals every month is built once, in the sorted dictionary's order, and never reordered
+    fa_calls = [c for c in ast.walk(ml) if isinstance(c, ast.Call) and (dotted(c.func) or "").endswith("feed_animals")]
+    lst = norm_src(fa_calls[0].args[0]) if fa_calls and fa_calls[0].args else None
+    from .core import Inliner
+    inl = Inliner(main)
+    built = inl.src(fa_calls[0].args[0]) if lst else ""
+    import re as _re
+    okl = bool(_re.fullmatch(r"\[(\w+) for \1 in (.+)\.values\(\)\]|list\((.+)\.values\(\)\)", built))
+    rep.check(okl, rule, "all_animals = dict order", f"the list of animals fed is not built from the sorted dictionary's order ({built[:80]})", loc=loc(ANIM, main))
     reorder = []
     for n in ast.walk(main):
         if isinstance(n, ast.Call) and isinstance(n.func, ast.Attribute) and n.func.attr in ("sort", "reverse", "insert", "pop", "remove") \
-                and norm_src(n.func.value) in ("all_animals", "ruminants"):
+                and lst and norm_src(n.func.value) == lst:
             reorder.append(n.lineno)
-        if isinstance(n, ast.Assign) and any(isinstance(t, ast.Subscript) and norm_src(t.value) == "all_animals" for t in n.targets):
+        if isinstance(n, ast.Assign) and any(isinstance(t, ast.Subscript) and lst and norm_src(t.value) == lst for t in n.targets):
             reorder.append(n.lineno)
-    rep.check(not reorder, rule, "order preserved through the month loop", f"all_animals is reordered in place (lines {reorder})", loc=loc(ANIM, main))
-    rep.require_min(rule, 10)
+    rep.check(not reorder, rule, "order preserved through the month loop", f"the list of animals is reordered in place (lines {reorder})", loc=loc(ANIM, main))
+    rep.require_min(rule, 9)
 
 
 def describe(rep):
